@@ -19,6 +19,7 @@ m("C01","drop-setcoords-error","linestring.go","	if err := g.setCoords(coords); 
 m("C02","push-append-before-check","polygon.go","	if lr.layout != g.layout {\n		return ErrLayoutMismatch{Got: lr.layout, Want: g.layout}\n	}\n	g.flatCoords = append(g.flatCoords, lr.flatCoords...)","	g.flatCoords = append(g.flatCoords, lr.flatCoords...)\n	if lr.layout != g.layout {\n		return ErrLayoutMismatch{Got: lr.layout, Want: g.layout}\n	}","push-guarded-atomic/(*geom.Polygon).Push")
 m("C02","mls-push-no-check","multilinestring.go","	if ls.layout != g.layout {\n		return ErrLayoutMismatch{Got: ls.layout, Want: g.layout}\n	}\n","","push-guarded-atomic/(*geom.MultiLineString).Push")
 m("C02","revert-capacity-cap","multipolygon.go","g.flatCoords[offset:end:end]","g.flatCoords[offset:end]","growable-part-capacity-capped/(*geom.MultiPolygon).Polygon")
+m("C02","revert-reverse1-zero-stride","flat.go","	if stride == 0 {\n		// Geometries without a layout have no coordinates to reverse, and the\n		// cursors below would not move.\n		return\n	}\n","","kernels-return-for-zero-stride/geom.reverse1")
 m("C02","reverse-also-ends","flat.go","func (g *geom2) Reverse() {\n	reverse2(g.flatCoords, 0, g.ends, g.stride)","func (g *geom2) Reverse() {\n	for i, j := 0, len(g.ends)-1; i < j; i, j = i+1, j-1 {\n		g.ends[i], g.ends[j] = g.ends[j], g.ends[i]\n	}\n	reverse2(g.flatCoords, 0, g.ends, g.stride)","reverse-writes-ordinates-only")
 # ---- C03
 m("C03","swap-xyz-xym-codes","encoding/wkb/wkb.go","	wkbXYZID  = 1000\n	wkbXYMID  = 2000","	wkbXYZID  = 2000\n	wkbXYMID  = 1000","type-word-evaluated/wkb.")
@@ -99,6 +100,7 @@ m("C16","flatcoords-aliased","derived.gen.go","	dst.layout = src.layout\n	dst.st
 # ---- C17
 m("C17","normalize-inputs-in-place","xy/lineintersector/robust_line_intersector.go","	copy(line1End1Norm, line1Start)\n	copy(line1End2Norm, line1End)\n	copy(line2End1Norm, line2Start)\n	copy(line2End2Norm, line2End)\n\n	normPt := geom.Coord{0, 0}\n	normalizeToEnvCentre(line1End1Norm, line1End2Norm, line2End1Norm, line2End2Norm, normPt)","	copy(line1End1Norm, line1Start)\n	copy(line1End2Norm, line1End)\n	copy(line2End1Norm, line2Start)\n	copy(line2End2Norm, line2End)\n\n	normPt := geom.Coord{0, 0}\n	normalizeToEnvCentre(line1Start, line1End, line2Start, line2End, normPt)","args-not-written/xy/lineintersector.LineIntersectsLine")
 m("C17","bounds-memoised-global","flat.go","// Bounds returns the bounds of g.\nfunc (g *geom0) Bounds() *Bounds {\n	return NewBounds","var lastBounds *Bounds\n\n// Bounds returns the bounds of g.\nfunc (g *geom0) Bounds() *Bounds {\n	lastBounds = nil\n	return NewBounds","globals-immutable/github.com/twpayne/go-geom.lastBounds")
+m("C17","revert-marshal-nil-fresh","encoding/geojson/geojson.go","		// A fresh copy: the result belongs to the caller, who may modify it.\n		return append([]byte(nil), nullGeometry...), nil","		return nullGeometry, nil","results-not-package-memory/encoding/geojson.Marshal")
 m("C17","goroutine-in-library","xy/radial_comparator.go","// NewRadialSorting","func init() { go func() {}() }\n\n// NewRadialSorting","no-hidden-concurrency/xy")
 # ---- C18
 m("C18","trim-when-d-ge-0","encoding/wkt/encode.go","		if e.maxDecimalDigits > 0 {","		if e.maxDecimalDigits >= 0 {","wkt-digits/(*encoding/wkt.Encoder).writeCoord/trim")
